@@ -20,6 +20,8 @@ CONFIGS = [
     ('origin', R.Params(address_size=8, endian='little', zones=ZONES, origin=3)),
     # a small GLOBAL zone (0..13, no other zone): windows may end beyond the addressable memory
     ('global-13', R.Params(address_size=8, endian='little', zones=[{'name': 'GLOBAL', 'start': 0, 'end': 13}])),
+    # a GLOBAL zone that starts above 0: windows may start below every address a line can have
+    ('global-from-4', R.Params(address_size=8, endian='little', origin=4, zones=ZONES + [{'name': 'GLOBAL', 'start': 4, 'end': 60}])),
 ]
 
 
@@ -52,8 +54,8 @@ FILLS = [0xFF, 0x1A5, 0]
 def meta(tier):
     q = tier == 'quick'
     return {
-        'rule': 'programs: every history over the 11-symbol line alphabet up to the depth bound under 4 configurations '
-                '(plain / predefined data block / non-zero default origin / a GLOBAL zone ending at 13, so that windows reach beyond the addressable memory) that the reference accepts; windows: every start in '
+        'rule': 'programs: every history over the 11-symbol line alphabet up to the depth bound under 5 configurations '
+                '(plain / predefined data block / non-zero default origin / a GLOBAL zone ending at 13, so that windows reach beyond the addressable memory / a GLOBAL zone starting at 4, so that windows start below it) that the reference accepts; windows: every start in '
                 '[0, top+2] x every end in {absent} U [start-1, top+2] (top = highest emitted address) x fill values, the number of -v flags (0..3) rotating with the window, every other window written over an existing 25-byte file; '
                 'non-trivial = a window that cuts through a multi-byte line, or covers a gap / muted byte, or lies beyond the code; '
                 'states = distinct (memory map, muted map) pairs',
